@@ -216,6 +216,19 @@ func (n *Node) attesterDuties(ctx context.Context, opts *api.AttesterDutiesOpts,
 			out[0].CommitteeIndex = phase0.CommitteeIndex(out[0].CommitteesAtSlot + 3)
 			f.Att = map[int]*apiv1.AttesterDuty{}
 		}
+	case "next-epoch-first", "prev-epoch-last":
+		// a duty just outside the requested epoch, for one of the validators asked about: must be ignored
+		if len(f.Indices) > 0 {
+			v := f.Indices[len(f.Indices)-1]
+			slot := (uint64(opts.Epoch) + 1) * n.M.P.SlotsPerEpoch
+			if odd == "prev-epoch-last" {
+				if opts.Epoch == 0 {
+					break
+				}
+				slot = uint64(opts.Epoch)*n.M.P.SlotsPerEpoch - 1
+			}
+			out = append(out, &apiv1.AttesterDuty{PubKey: PubKey(v), Slot: phase0.Slot(slot), ValidatorIndex: phase0.ValidatorIndex(v), CommitteeIndex: 0, CommitteeLength: 4, CommitteesAtSlot: uint64(n.M.P.Committees), ValidatorCommitteeIndex: 1})
+		}
 	case "foreign-validator":
 		// a duty for a validator vouch never asked about, and a nil entry
 		x := &apiv1.AttesterDuty{PubKey: PubKey(9999), Slot: phase0.Slot(uint64(opts.Epoch) * n.M.P.SlotsPerEpoch), ValidatorIndex: 9999, CommitteeLength: 1, CommitteesAtSlot: 1}
@@ -254,7 +267,8 @@ func (n *Node) ProposerDuties(ctx context.Context, opts *api.ProposerDutiesOpts)
 		f.Prop[s] = v
 		out = append(out, &apiv1.ProposerDuty{PubKey: PubKey(v), Slot: phase0.Slot(s), ValidatorIndex: phase0.ValidatorIndex(v)})
 	}
-	switch n.odd("ProposerDuties") {
+	oddKind := n.odd("ProposerDuties")
+	switch oddKind {
 	case "other-epoch":
 		if len(out) > 0 {
 			x := *out[0]
@@ -271,6 +285,18 @@ func (n *Node) ProposerDuties(ctx context.Context, opts *api.ProposerDutiesOpts)
 		if len(out) > 0 {
 			x := *out[0]
 			out = append(out, &x)
+		}
+	case "next-epoch-first", "prev-epoch-last":
+		if len(f.Indices) > 0 {
+			v := f.Indices[len(f.Indices)-1]
+			slot := (uint64(opts.Epoch) + 1) * n.M.P.SlotsPerEpoch
+			if oddKind == "prev-epoch-last" {
+				if opts.Epoch == 0 {
+					break
+				}
+				slot = uint64(opts.Epoch)*n.M.P.SlotsPerEpoch - 1
+			}
+			out = append(out, &apiv1.ProposerDuty{PubKey: PubKey(v), Slot: phase0.Slot(slot), ValidatorIndex: phase0.ValidatorIndex(v)})
 		}
 	case "foreign-validator":
 		out = append(out, &apiv1.ProposerDuty{PubKey: PubKey(9999), Slot: phase0.Slot(uint64(opts.Epoch)*n.M.P.SlotsPerEpoch + 1), ValidatorIndex: 9999})
